@@ -75,6 +75,16 @@ class RepeatUnit(Unit):
                 lim = {"uint8": 255, "int8": 127, "int16": 32767, "uint16": 65535, "int32": 2 ** 31 - 1}[dt]
                 r = min(12, lim // max(period, 1) + 2) if dt != "int32" else rng.randint(2, 6)
                 cases.append({"x": [float(v) for v in xs], "y": gens.values(rng, N), "r": max(2, r), "int": True, "x_dtype": dt})
+        # pairs of different series with the same first abscissa, last abscissa, length and repeat count (but another last step), run one
+        # after the other in this process: nothing may be carried over from one call to the next
+        for _ in range(6 if tier == "quick" else 40):
+            N = rng.randint(4, 7)
+            first = float(rng.randint(-3, 3))
+            last = first + rng.randint(2 * N, 3 * N)
+            r = rng.randint(2, 4)
+            for _k in range(2):
+                inner = sorted(rng.sample(range(int(first) + 1, int(last)), N - 2))
+                cases.append({"x": [first] + [float(v) for v in inner] + [last], "y": gens.values(rng, N), "r": r, "int": False})
         # composition cases
         for a in range(1, 5):
             for b in range(1, 13 // a):
@@ -322,7 +332,7 @@ Definition tr_match (tol : Qc) (m : res (list Qc * list Qc)) (o : obs (list Qc *
         n = 300 if tier == "quick" else 3000
         for _ in range(n):
             N = rng.randint(1, 10)
-            x = gens.sorted_x(rng, N)
+            x = gens.epoch_x(rng, N) if rng.random() < 0.12 else gens.sorted_x(rng, N)   # epoch: spacing tiny relative to the magnitude
             y = gens.values(rng, N)
             lr, rr = rng.random() < 0.3, rng.random() < 0.3
 
